@@ -553,7 +553,7 @@ def enumerate_locations_two_point(rec, descs, origin, part=0, parts=1):
         if ai % parts != part:
             continue
         for Lb in locs1:
-            if out_of_budget(rec):
+            if n > 0 and out_of_budget(rec):
                 return n
             pts = [(0, La, 1, 1), (1, Lb, 1, 0)]
             inp = {"calls": descs, "loc_points": [list(p) for p in pts], "schedule": [], "origin": origin, "cold": False}
@@ -689,7 +689,7 @@ def shard_aged(arg):
         make_call(A)()
         want_a, locs = sched.trace_locations(make_call(A), repo_root())
         for L in locs:
-            if out_of_budget(rec):
+            if rec.classes["burst-of-lookups-while-paused"] > 0 and out_of_budget(rec):
                 break
             make_call(A)()          # A's key is known again (the previous burst may have pushed it out)
             bseed = rng.randrange(2 ** 32)
@@ -798,7 +798,7 @@ def shard_aged_pairs(arg):
         k = 1
         for rep in range(1 if tier == "quick" else 3):
             for L in locs:
-                if out_of_budget(rec) or k + 1 >= len(held):
+                if (k > 1 and out_of_budget(rec)) or k + 1 >= len(held):
                     break
                 if not run_aged_point(zyg, rec, kind, seed, held[k], held[k + 1], L):
                     break
